@@ -8,19 +8,22 @@ class Balance(V.Family):
     driver_pkg = "balance"
     monitor = ("BalanceTrace.tla", "BalanceTrace.cfg")
     step_keys = ("act", "S", "a", "b", "amt", "x", "d")
+    reset_keys = ("n", "scale", "src", "nf")
     assume = [
         "neo-go v0.107.0 compiler/VM/ledger/neotest are faithful to the production platform (transaction atomicity on FAULT, witness checks)",
         "the harness maps model values injectively to real script hashes/amounts; amounts are scaled by U in {1,1e12,2^64,2^200} and must divide exactly",
-        "Alphabet-only methods receive 20-byte addresses and lock targets are fresh addresses (quantifier of the property)",
+        "Alphabet-only methods receive 20-byte addresses and lock targets are fresh addresses (quantifier of C01); for C09, whose quantifier does not ask for freshness, a share of the scenarios also locks onto lock addresses that hold an ordinary entry (never onto an existing lock) - those traces are judged by the C09 predicates only",
         "TLC 1.8.0 evaluates the property predicates correctly on the recorded steps",
     ]
     rule = ("one evaluation = one transaction executed on the real Balance contract and judged by the TLA+ monitor; "
             "distinct_nontrivial counts distinct (action,outcome,return,signer class,amount class,address kinds,#notifications,"
             "state changed) tuples among steps that changed state or were refused for a reason other than a missing Alphabet witness")
     tiers = {
-        "quick": dict(mc=[("BalanceMC.tla", "Balance_quick.cfg"), ("BalanceMC.tla", "Balance_nested.cfg")], mc_timeout=600,
+        "quick": dict(mc=[("BalanceMC.tla", "Balance_quick.cfg"), ("BalanceMC.tla", "Balance_nested.cfg"),
+                          ("BalanceMC.tla", "Balance_nonfresh.cfg")], mc_timeout=600,
                       sim=("BalanceMC.tla", "Balance_sim.cfg", 60, 25), sim_keep=150, nrand=150, shards=4),
-        "thorough": dict(mc=[("BalanceMC.tla", "Balance_thorough.cfg"), ("BalanceMC.tla", "Balance_nested.cfg")], mc_timeout=3000,
+        "thorough": dict(mc=[("BalanceMC.tla", "Balance_thorough.cfg"), ("BalanceMC.tla", "Balance_nested.cfg"),
+                             ("BalanceMC.tla", "Balance_nonfresh.cfg")], mc_timeout=3000,
                          sim=("BalanceMC.tla", "Balance_sim.cfg", 1500, 25), sim_keep=4000, nrand=6000, shards=14),
     }
 
